@@ -226,3 +226,153 @@ c19_v4!(c19_nts_deny, 6, P0, C, Policy::DenyAddress, Auth::Ok, |o| {
 c19_v4!(c19_nts_deny_unauth, 6, P0, C, Policy::DenyAddress, Auth::BadTag, |o| {
     kani::cover!(o.kind == Some(Kind::Deny), "plain DENY for an unauthenticated request of a denied client");
 });
+
+// ==========================================================================================
+// Packet-level harnesses: the answer *before* serialization (hook `server_handle_inner`, a thin
+// wrapper around the private `Server::handle_inner`). Reason: symbolic execution of the answer
+// serializer for answers that carry extension fields does not fit the budget (measured: the
+// smallest NTPv4 template with one echoed identifier needs 570 s of symex and > 8 GB in the
+// solver; every pointer-iterating loop over `Vec<ExtensionField>` and the `io::Error` drop glue is
+// unrolled to the unwind bound, nested). What these harnesses decide: policy/authentication
+// outcome, which answer is built, which key is handed to the serializer, which fields and how
+// many cookies the answer holds. What they do not see: the bytes (associated-data coverage and
+// padding of the authenticator are left to C24/C25's encoder harnesses).
+use ntp_proto::verif::packet::{self as ph, Ef};
+use ntp_proto::verif::server as sh;
+use ntp_proto::verif::time_types as th;
+
+/// payload of a unique-identifier field equals `req[off..off+len]`
+fn is_uid_echo(ef: &Ef<'_>, req: &[u8], off: usize, len: usize) -> bool {
+    match ef {
+        Ef::UniqueIdentifier(d) => d.len() == len && same(d, 0, req, off, len),
+        _ => false,
+    }
+}
+
+/// One NTPv4 NTS exchange up to the unserialized answer; C19's assertions on that level.
+pub fn nts_v4_inner(lay: NtsLayout, fresh: usize, env: &Env, auth: Auth, msg: &mut [u8]) -> NtsOutcome {
+    build_nts_request(msg, &lay, 4);
+    reset_ghosts(auth, fresh);
+    let keyset = empty_keyset();
+    let keyset_ptr = Arc::as_ptr(&keyset);
+    let mut server = env.server(v5::BloomFilter::new(), keyset);
+    let mut stats = RecStats::default();
+    let msg: &[u8] = msg;
+    let res = sh::server_handle_inner(&mut server, env.client_ip(), env.recv(), msg, &mut stats);
+
+    let auth_ok = auth == Auth::Ok;
+    let (dec_ok, dec_wrong, dec_bad_extents, enc_calls, cookie_encodes, bad_keys, enc_keyset, foreign) = unsafe {
+        (DEC_OK, DEC_WRONG_KEY, DEC_BAD_EXTENTS, ENC_CALLS, COOKIE_ENCODES, COOKIE_ENCODE_BAD_KEYS, COOKIE_ENCODE_KEYSET, COOKIE_DECODE_FOREIGN)
+    };
+    assert!(dec_wrong == 0, "the request is only ever decrypted with the cookie's c2s key");
+    assert!(dec_bad_extents == 0, "the server verifies exactly the extents the client authenticated (whole prefix as associated data)");
+    assert!(foreign == 0, "only the request's cookie field is decoded");
+    assert!(dec_ok as usize == auth_ok as usize, "decrypt succeeds exactly for an authentic request with a valid cookie");
+    assert!(enc_calls == 0, "nothing is encrypted before serialization");
+    assert!(unsafe { REAL_AES_CALLS } == 0, "stub sanity: no real AES-SIV cipher exists in this harness");
+
+    let d = match res {
+        Err(_) => {
+            assert!(!auth_ok, "authentic NTS client request is answered");
+            std::mem::forget(server);
+            return NtsOutcome { kind: None, cookies: 0, len: 0 };
+        }
+        Ok(d) => d,
+    };
+    let p = &d.packet;
+    let authenticated = ph::packet_authenticated(p);
+    let encrypted = ph::packet_encrypted(p);
+    let untrusted = ph::packet_untrusted(p);
+    assert!(p.mode() == NtpAssociationMode::Server && p.version() == NtpVersion::V4, "answer: server mode, request's version");
+    let out;
+    if !auth_ok {
+        // ---- authentication failed: NAK, or DENY by policy; never time, no key, no cookie
+        let expect = if env.deny_client { Kind::Deny } else { Kind::Nak };
+        assert!(d.action == if env.deny_client { ServerResponse::Deny } else { ServerResponse::NTSNak }, "C19: unauthenticated request => NTS NAK (DENY if policy denies the client)");
+        assert!(p.stratum() == 0 && th::ts_raw(p.receive_timestamp()) == 0 && th::ts_raw(p.transmit_timestamp()) == 0,
+            "C19: no time in the answer to an unauthenticated request");
+        assert!(p.reference_id() == if env.deny_client { ReferenceId::KISS_DENY } else { ReferenceId::KISS_NTSN }, "kiss code");
+        assert!(d.cipher.is_none(), "no session key is used for an unauthenticated request");
+        assert!(authenticated.len() == 0 && encrypted.len() == 0, "nothing authenticated, nothing encrypted, no cookie");
+        assert!(cookie_encodes == 0, "no cookie is issued to an unauthenticated request");
+        let n_uid = 1 + (lay.trailing > 0) as usize;
+        assert!(untrusted.len() == n_uid, "only the unique identifiers are echoed (nothing from the undecryptable part)");
+        assert!(is_uid_echo(&untrusted[0], msg, lay.o_uid() + 4, lay.uid), "identifier echoed unchanged");
+        if lay.trailing > 0 {
+            assert!(is_uid_echo(&untrusted[1], msg, lay.o_trailing() + 4, lay.trailing - 4), "trailing identifier echoed unchanged");
+        }
+        assert!(d.nts || env.deny_client, "statistics: counted as NTS");
+        out = NtsOutcome { kind: Some(expect), cookies: 0, len: 0 };
+    } else {
+        // ---- authenticated request
+        let expect = if env.deny_client { Kind::Deny } else { Kind::Time };
+        assert!(d.action == if env.deny_client { ServerResponse::Deny } else { ServerResponse::ProvideTime }, "authenticated request: time, or DENY by policy");
+        assert!(d.nts, "statistics: counted as NTS");
+        match &d.cipher {
+            None => assert!(false, "C19: the answer to an authenticated request is authenticated"),
+            Some(c) => assert!(c.key_bytes().len() == 1 && c.key_bytes()[0] == S2C_ID, "C19: with the cookie's server-to-client key"),
+        }
+        if expect == Kind::Time {
+            assert!(d.desired_size == Some(msg.len()), "answer is padded to the request's size");
+            assert!(p.stratum() == env.stratum && th::ts_raw(p.receive_timestamp()) == env.recv_raw && th::ts_raw(p.transmit_timestamp()) == env.now_raw,
+                "time answer carries the server's stratum, the reception time and the clock reading");
+        } else {
+            assert!(p.stratum() == 0 && th::ts_raw(p.transmit_timestamp()) == 0 && p.reference_id() == ReferenceId::KISS_DENY, "DENY kiss");
+        }
+        assert!(untrusted.len() == 0, "nothing unauthenticated in an authenticated answer");
+        assert!(authenticated.len() == 1 && is_uid_echo(&authenticated[0], msg, lay.o_uid() + 4, lay.uid),
+            "authenticated part = echo of the authenticated unique identifier, nothing else reflected");
+        // encrypted part: fresh cookies only
+        let k = encrypted.len();
+        let holders = (lay.cookie >= fresh) as usize + if lay.placeholder >= fresh { lay.slots() - 1 } else { 0 };
+        assert!(k <= 8, "C19: never more than eight cookies");
+        assert!(k <= lay.slots(), "C19: at most one fresh cookie per cookie or placeholder in the request");
+        assert!(k <= holders, "C19: no fresh cookie is larger than the field it replaces");
+        assert!(expect == Kind::Time || k == 0, "no cookies in a DENY");
+        let mut i = 0;
+        let mut last_seq = 0u8;
+        while i < k && i < 8 {
+            match &encrypted[i] {
+                Ef::NtsCookie(c) => {
+                    assert!(c.len() == fresh, "cookie of the issued length");
+                    assert!(c[0] == 0xC0 && c[2] == S2C_ID && c[3] == C2S_ID, "C19: cookie was issued by encode_cookie for the request's session keys");
+                    assert!(c[1] > last_seq, "every cookie comes from its own encode_cookie call (fresh, never repeated)");
+                    last_seq = c[1];
+                }
+                _ => assert!(false, "encrypted part of the answer holds cookies only"),
+            }
+            i += 1;
+        }
+        assert!(bad_keys == 0, "C19: cookies are encoded for the same session keys as the request's cookie");
+        assert!(cookie_encodes == 0 || enc_keyset == keyset_ptr, "C19: cookies are encoded under the server's current key set");
+        out = NtsOutcome { kind: Some(expect), cookies: k, len: 0 };
+    }
+    std::mem::forget(d);
+    std::mem::forget(server);
+    out
+}
+
+macro_rules! c19_inner {
+    ($name:ident, $unwind:expr, $lay:expr, $fresh:expr, $policy:expr, $auth:expr, |$o:ident| $covers:block) => {
+        srv_harness! {
+            #[kani::unwind($unwind)]
+            fn $name() {
+                const LAY: NtsLayout = $lay;
+                let env = Env::any().with($policy);
+                let mut backing: [u8; LAY.len() + SLACK] = kani::any();
+                let $o = nts_v4_inner(LAY, $fresh, &env, $auth, &mut backing[..LAY.len()]);
+                $covers
+            }
+        }
+    };
+}
+
+c19_inner!(c19_inner_time, 4, P0, C, Policy::Serve, Auth::Ok, |o| {
+    kani::cover!(o.kind == Some(Kind::Time) && o.cookies == 1, "authenticated time answer with one fresh cookie");
+});
+c19_inner!(c19_inner_nak_cookie, 4, P0, C, Policy::Serve, Auth::BadCookie, |o| {
+    kani::cover!(o.kind == Some(Kind::Nak), "NAK: cookie does not decode");
+});
+c19_inner!(c19_inner_nak_tag, 4, P0, C, Policy::Serve, Auth::BadTag, |o| {
+    kani::cover!(o.kind == Some(Kind::Nak), "NAK: cookie fine, authentication fails");
+});
